@@ -119,6 +119,7 @@ func scenarioTunnel(c *vrun.Ctx) {
 	defer env.close()
 	n := len(tunnelShapes)
 	caseNo := 0
+	pipelineTimeouts := 0
 	for depth := 1; depth <= p.Depth; depth++ {
 		total := 1
 		for i := 0; i < depth; i++ {
@@ -146,6 +147,33 @@ func scenarioTunnel(c *vrun.Ctx) {
 			env.seq++
 			desc := strings.Join(names, " ")
 			results := map[string][]string{}
+			// pipelined: the whole sequence is written into one tunnel before the first answer is read
+			if depth > 1 && pipelineTimeouts < 6 {
+				prefix := "/s" + strconv.Itoa(env.seq) + "q"
+				scriptTunnelOrigin(env.origin, prefix)
+				if t, cr := env.srv.OpenTunnel(originHost+":443", env.tlsConfig(originHost)); t == nil {
+					for range seq {
+						results["pipelined"] = append(results["pipelined"], summary(cr))
+					}
+				} else {
+					var raws []string
+					for _, s := range seq {
+						raws = append(raws, rawOriginFormHost(s.method, prefix+s.path, s.hdrs, s.body, s.host))
+					}
+					for _, r := range t.DoPipelined(raws) {
+						results["pipelined"] = append(results["pipelined"], summary(r))
+						if strings.Contains(r.Err, "timeout") {
+							// every unanswered pipelined request costs the full read deadline of real time:
+							// after a few of them (each already reported) the mode is switched off for this worker
+							pipelineTimeouts++
+							if pipelineTimeouts == 6 {
+								c.Cap("pipelined mode switched off after 6 unanswered requests")
+							}
+						}
+					}
+					t.Close()
+				}
+			}
 			for _, mode := range []string{"one-tunnel", "tunnel-per-request", "plain"} {
 				prefix := "/s" + strconv.Itoa(env.seq) + mode[:1]
 				scriptTunnelOrigin(env.origin, prefix)
@@ -195,6 +223,11 @@ func scenarioTunnel(c *vrun.Ctx) {
 				if one != per {
 					c.SetCase(desc)
 					c.Violation("C10/tunnel/depends-on-earlier-exchange/"+seq[i].name+"/after-"+prevName(seq, i), fmt.Sprintf("exchange %d (%s) differs between one kept-alive tunnel and a tunnel of its own:\n kept-alive: %s\n own tunnel: %s\n sequence: %s", i+1, seq[i].name, one, per, desc), nil)
+					break
+				}
+				if pl := results["pipelined"]; len(pl) == len(seq) && strings.ReplaceAll(pl[i], prefixOf(env.seq, "q"), "") != strings.ReplaceAll(per, prefixOf(env.seq, "t"), "") {
+					c.SetCase(desc)
+					c.Violation("C10/tunnel/pipelined-differs/"+seq[i].name+"/after-"+prevName(seq, i), fmt.Sprintf("exchange %d (%s) differs between a tunnel whose requests were all written before the first answer was read and a tunnel of its own:\n pipelined:  %s\n own tunnel: %s\n sequence: %s", i+1, seq[i].name, pl[i], per, desc), nil)
 					break
 				}
 				if per != plain && !seq[i].tunnelOnly {
@@ -341,3 +374,5 @@ func hostClass(h string) string {
 	}
 	return "dns"
 }
+
+func prefixOf(seq int, mode string) string { return "/s" + strconv.Itoa(seq) + mode }
